@@ -372,6 +372,9 @@ func FromNode(n ast.Node) *N {
 	return r
 }
 
+// IsNilNode detects typed nil pointers stored in the Node interface.
+func IsNilNode(n ast.Node) bool { return isNilNode(n) }
+
 // isNilNode detects typed nil pointers stored in the Node interface.
 func isNilNode(n ast.Node) bool {
 	switch x := n.(type) {
